@@ -524,13 +524,13 @@ def repository_identity(prog, an, rep):
             src(e.comparators[0]).endswith('project_repo.' + attr))]
         gates = []
         for t in tests:
-            gates += c.branch(t, isinstance(t.ast.ops[0], ast.Eq))
+            gates += c.branch(t, isinstance(t.matched.ops[0], ast.Eq))
             from ..rules import substitute_locals
-            left = src(substitute_locals(f, t.ast.left, depth=1))
+            left = src(substitute_locals(f, t.matched.left, depth=1))
             rep.check(left.endswith(payload), R, f.qname + ': %s compared '
                       'with the payload repository %s' % (attr, attr),
                       f.where(t), 'the %s check compares %s' % (attr, left))
-            for b in c.branch(t, isinstance(t.ast.ops[0], ast.NotEq)):
+            for b in c.branch(t, isinstance(t.matched.ops[0], ast.NotEq)):
                 first = _first_exit(an, f, c, b)
                 code = None
                 for nn in c.reachable(start=b, use_exc=False):
